@@ -5,18 +5,20 @@ import base64, struct
 
 ID = 'C03'
 GENERATORS = ['gen_font',            # Model/Font.v (reused for glyphs_from_u8_data) needs Gen/FontConsts.v
+              'gen_macro',           # Gen/MacroLimit.v: MAX_MACRO_NESTING (Model/AnsiTok.v astep, Model/Cost.v macro_chars)
               'gen_codepage', 'gen_formats']   # extension (e): the loader models of C05 / C02 (Model/C05*.v, Model/C02Loaders.v) need Gen/Codepage.v, Gen/Formats.v
 COQ_TARGETS = ['Props/C03.vo', 'Run/RunC03.vo', 'Run/RunC03L.vo']
 PROPS_MODULE = 'Props.C03'
 THEOREMS = ['cost_bound', 'cost_bound_sp', 'prim_ticks_bound', 'ticks_bound_scroll', 'tick_version_same_state', 'fixed_arms_only', 'sp_arms_only',
-            'rep_linear', 'rep_refuted', 'hexmacro_refuted', 'macro_recursion_refuted', 'sixel_repeat_linear', 'sixel_raster_refuted',
+            'rep_linear', 'rep_refuted', 'hexmacro_refuted', 'macro_recursion_before_fix_refuted', 'sixel_repeat_linear', 'sixel_raster_refuted',
             'avatar_repeat_bound', 'glyph_iters_bound', 'window_ticks_bound',
             # extension (a): allocation
             'alloc_version_same_state', 'alloc_counts_growth', 'alloc_dominates', 'alloc_bound', 'alloc_bound_state', 'alloc_bound_sp', 'alloc_bound_dollar',
             # extension (b): weighted iteration totals, rectangle clip
             'ticks_bound', 'ticks_bound_sp', 'rect_clip', 'ticks_bound_dollar', 'ticks_bound_rqcra', 'dollar_arms_only', 'rqcra_arm_only',
             # extension (c): hex-macro repeat groups, macro replay
-            'hexmacro_bound', 'hexmacro_bound_cond', 'hexmacro_linear', 'macro_replay_bound', 'macro_invokes_half', 'macro_table_ok',
+            'hexmacro_bound', 'hexmacro_bound_cond', 'hexmacro_linear', 'macro_replay_bound', 'macro_replay_total', 'macro_recursion_bounded', 'macro_limit_conservative',
+            'macro_invokes_half', 'macro_table_ok',
             # extension (d): sixel decoder
             'sixel_ticks_bound', 'sixel_alloc_bound', 'sixel_image_bound',
             # extension (e): binary loaders
@@ -34,8 +36,10 @@ TRUSTED = ['Coq 8.16.1 kernel + vm_compute (model evaluation in stage C); no axi
 UNMODELLED = ['real time and memory (the theorems count iterations and allocated rows/cells/bytes; Vec::insert/remove count as one step)',
               'REP: outside alloc_bound / ticks_bound (final byte b is the known class of both; its threaded counter rep_a is computed, dominates the growth '
               '(alloc_dominates) and is compared one-sidedly by stage C; its per-iteration weight is an upper estimate)',
-              'macro replay: macro_replay_bound is about macro_chars (characters replayed, nesting through `ESC [ n * z` occurrences, fuel = depth); a macro that '
-              'DEFINES macros while it is replayed is not covered; OSC, APS, music strings: linear scans, not modelled',
+              'macro replay: macro_replay_bound / macro_replay_total / macro_recursion_bounded are about macro_chars (characters replayed, nesting through the `ESC [ n * z` occurrences '
+              'of the bodies, at most MAX_MACRO_NESTING levels as in the code, the chain abandoned at the first invocation beyond the limit); a macro that DEFINES macros while it is replayed '
+              'is not covered by that abstraction (the character-level model AnsiTok.astep covers it: C01); the bound for NON-recursive nests is geometric in the depth (each level may replay '
+              'the next several times: <= B (1 + c + .. + c^15)), which 64 input bytes cannot make large; OSC, APS, music strings: linear scans, not modelled',
               'binary loaders: the cell loops of BIN / ADF / XBin (both) / Tundra / IDF are counted (load_ticks_bound_*); rows x cells of the loaded layer are proved '
               'for the sequential loaders (pair_loop) and, for Tundra, the row count; IcyDraw (.icy) and the text loaders (ans, pcb, avt, ...) have no cost model: stage S only',
               'sixel: colour registers (palette growth by `#n`) are not counted; the decode thread / queue is C14\'s',
@@ -66,7 +70,8 @@ RULE = ('stage S: the complete control-function table of the quantifier: every C
         'tab stops, every row length, content hash must be equal after the entry and after the probe, so a sequence the model rejects must be an error without effect in the code. '
         'EXTENSION cases of stage C: the rectangle functions (4/5/6 parameters from {0,1,2,h-1,h,h+1,w-1,w,w+1,200,99999,2^31-1}, valid and invalid fill characters, valid DECRQCRA rectangles), '
         'window resize and the insert/delete key in the same random table, each with the threaded allocation counter and the instances of alloc_bound / ticks_bound; hex macros invoked after a form feed '
-        '(characters printed, read off the caret, = length of the expanded macro <= zlen s (1 + hex_reps)); 24/120 nests of up to four macros (printed <= macro_chars <= B geom c depth, depth exact); '
+        '(characters printed, read off the caret, = length of the expanded macro <= zlen s (1 + hex_reps)); 24/120 nests of up to four macros (printed <= macro_chars <= B geom c depth, depth exact) '
+        'and 30/150 nests around the limit MAX_MACRO_NESTING (chains of 14..19 macros, self- and mutually recursive bodies with fan-out: the invocation is an error value exactly when the model abandons the chain, printed <= macro_chars <= bound); '
         '147/627 sixel payloads (data, cursor moves, colour definitions, repeat groups <= 400, raster attributes <= 300: accept/reject, rows, bytes = rows x longest row <= sixel_image_bound); '
         '75/250 generated BIN ADF XBin (raw and well-formed compressed runs) Tundra IDF files without SAUCE (accept/reject, width height rows cells of the loaded buffer, counters within load_ticks_bound_*). '
         'non-trivial = the sequence ran a loop at least twice or changed the line table')
@@ -265,11 +270,15 @@ def special_cases(ctx):
     seq('hexmacro', E + b'P1;0;1!z41424344' + ST + E + b'[1*z')
     seq('hexmacro', E + b'P1;0;1!z!3;!3;41;;' + ST + E + b'[1*z')
     seq('hexmacro', E + b'P1;0;1!zZZ' + ST)
-    # recursion
+    # recursion (the former known class C03-stackoverflow:macro-recursion, repaired by the nesting limit): regression cases; with fan-out and repeat
+    # groups the work would be (invocations per body)^16 if the nesting error did not abandon the whole chain
     seq('macro-recursion', E + b'P1;0;1!z1B5B312A7A' + ST + E + b'[1*z')
-    if not quick:
-        seq('macro-recursion', E + b'P1;0;1!z1B5B322A7A' + ST + E + b'P2;0;1!z1B5B312A7A' + ST + E + b'[1*z')
-        seq('macro-recursion', E + b'P1;0;1!z411B5B312A7A' + ST + E + b'[1*z')
+    seq('macro-recursion', E + b'P1;0;1!z1B5B322A7A' + ST + E + b'P2;0;1!z1B5B312A7A' + ST + E + b'[1*z')
+    seq('macro-recursion', E + b'P1;0;1!z411B5B312A7A' + ST + E + b'[1*z')
+    seq('macro-recursion', E + b'P1;0;1!z' + b'1B5B312A7A' * 4 + ST + E + b'[1*z')
+    seq('macro-recursion', E + b'P1;0;1!z!9;411B5B312A7A;' + ST + E + b'[1*z')
+    seq('macro-recursion', E + b'P1;0;1!z!65536;1B5B312A7A;' + ST + E + b'[1*z', is_slow=True)      # (the definition itself is the known class hexmacro-repeat)
+    seq('macro-recursion', E + b'P1;0;1!z1B501B5B312A7A' + ST + E + b'[1*z' + ST)                    # recursion through the invocation inside a DCS string
     # nesting without recursion: macro 2 replays macro 1 three times
     seq('macro-nesting', E + b'P1;0;1!z41' + ST + E + b'P2;0;1!z' + b'1B5B312A7A' * 2 + ST + E + b'[2*z')
     seq('macro-nesting', E + b'P1;0;1!z!9;41;' + ST + E + b'P2;0;1!z!9;1B5B312A7A;' + ST + E + b'[2*z')
@@ -719,6 +728,47 @@ def macro_nest_cases(ctx):
         res.append((defs, top, macro_depth(defs, top)))
     return res
 
+def macro_limit(ctx):
+    """MAX_MACRO_NESTING of the tree under test (16 when the constant is gone: stage G reports that)"""
+    from translator import gen_macro
+    try: return gen_macro.limit(ctx.repo)
+    except Exception: return 16
+
+def macro_deep_cases(ctx):
+    """(definitions, top id, chain abandoned?) around the limit MAX_MACRO_NESTING: chains of n macros (macro k replays macro k-1 once or twice at the shallow
+    end), and recursive tables (self / mutual, fan-out 1..4, filler before / between / after the invocations)"""
+    limit = macro_limit(ctx)
+    rng = ctx.rng
+    ST = E + b'\\'
+    def hexdef(i, body):
+        return E + b'P%d;0;1!z' % i + body.hex().upper().encode() + ST
+    out = []
+    for n in [limit - 2, limit - 1, limit, limit, limit + 1, limit + 2, limit + 3]:
+        defs = hexdef(1, b'A' * rng.randint(1, 5))
+        for k in range(2, n + 1):
+            body = bytes(rng.choice(b'abc') for _ in range(rng.randint(0, 2))) + E + b'[%d*z' % (k - 1) + bytes(rng.choice(b'xyz') for _ in range(rng.randint(0, 2)))
+            if k <= 3 and rng.random() < 0.5: body += E + b'[%d*z' % (k - 1)
+            defs += hexdef(k, body)
+        out.append((defs, n, n > limit))
+    for _ in range(ctx.n(23, 143)):
+        nm = rng.randint(1, 3)
+        defs = b''; recursive = False
+        targets = {}
+        for i in range(1, nm + 1):
+            body = b''; targets[i] = []
+            for _ in range(rng.randint(0, 4)):
+                j = rng.randint(1, nm)
+                targets[i].append(j)
+                body += bytes(rng.choice(b'abcxyz') for _ in range(rng.randint(0, 3))) + E + b'[%d*z' % j
+            body += bytes(rng.choice(b'klm') for _ in range(rng.randint(0, 2)))
+            defs += hexdef(i, body)
+        top = rng.randint(1, nm)
+        # a cycle reachable from the top macro <=> the chain is abandoned (at most 3 macros: a non-recursive nest is at most 3 deep)
+        def cyc(i, path):
+            return any(j in path or cyc(j, path | {j}) for j in targets[i])
+        out.append((defs, top, cyc(top, {top})))
+    return out
+
 def macro_depth(defs, top):
     """nesting depth of macro `top` in hex definitions produced by macro_nest_cases (1 = no invocation inside)"""
     import re
@@ -805,6 +855,10 @@ def correspondence(ctx):
     nest_cases = ['seq 0 80 25 %s %s' % (hx(b'\x0c' + defs), hx(E + b'[%d*z' % top)) for defs, top, depth in nest]
     nest_exprs = ['run_macro_seq %d %s %d' % (depth, zl(defs), top) for defs, top, depth in nest] + \
                  ['run_macro_seq %d %s %d' % (depth - 1, zl(defs), top) for defs, top, depth in nest]
+    deep = macro_deep_cases(ctx)
+    mlimit = macro_limit(ctx)
+    deep_cases = ['seq 0 80 25 %s %s' % (hx(b'\x0c' + defs), hx(E + b'[%d*z' % top)) for defs, top, ab in deep]
+    deep_exprs = ['run_macro_seq %d %s %d' % (mlimit, zl(defs), top) for defs, top, ab in deep]
     glyph_cases = ['font %s' % hx(b'\x36\x04\x00' + bytes([hh]) + b'\x00' * nn) for hh, nn in glyphs]
     smeta = state_corr_cases(ctx)
     st_cases = [st_case(0, w, h, len(a), a + b) for _, w, h, a, b, _, _ in smeta]
@@ -815,13 +869,13 @@ def correspondence(ctx):
     files = loader_files(ctx)
     load_cases = ['load %s %s' % (ext, hx(d)) for ext, fmt, d, tk_e, info in files]
     load_exprs = ['run_load_shape %d %s' % (fmt, zl(d)) for ext, fmt, d, tk_e, info in files] + [tk_e for ext, fmt, d, tk_e, info in files]
-    ext_cases = hex_cases2 + nest_cases + sixel_cases + load_cases
+    ext_cases = hex_cases2 + nest_cases + sixel_cases + load_cases + deep_cases
     impl = ctx.impl(cases + hex_cases + glyph_cases + calib + ext_cases + st_cases, per_case_timeout=5)
-    model = ctx.model(MODEL_IMPORTS, exprs + exprs_old + extra_exprs + nest_exprs + sixel_exprs + load_exprs + st_exprs, timeout=900)
+    model = ctx.model(MODEL_IMPORTS, exprs + exprs_old + extra_exprs + nest_exprs + deep_exprs + sixel_exprs + load_exprs + st_exprs, timeout=900)
     impl_st = impl[len(impl) - len(st_cases):]; impl = impl[:len(impl) - len(st_cases)]
     impl_ext = impl[len(impl) - len(ext_cases):]; impl = impl[:len(impl) - len(ext_cases)]
     model_st = model[len(model) - len(st_exprs):]
-    e3 = len(model) - len(st_exprs); e2 = e3 - len(load_exprs); e1 = e2 - len(sixel_exprs); e0 = e1 - len(nest_exprs)
+    e3 = len(model) - len(st_exprs); e2 = e3 - len(load_exprs); e1 = e2 - len(sixel_exprs); e0 = e1 - len(nest_exprs) - len(deep_exprs)
     model_load = model[e2:e3]; model_sixel = model[e1:e2]; model_nest = model[e0:e1]
     tref = min([r[1][0] for r in impl[-3:] if r and r[0] == 'ok'] or [20000])
     per_tick = max(0.05, tref / 20000.0)          # microseconds per printed character in this run
@@ -901,15 +955,30 @@ def correspondence(ctx):
     for j, (defs, top, depth) in enumerate(nest):
         m = model_nest[j]; m0 = model_nest[len(nest) + j]; r = impl_ext[len(hexs) + j]
         c = nest_cases[j]; ext_n += 1
-        if m is None or m0 is None or len(m) < 4:
+        if m is None or m0 is None or len(m) < 5:
             dis.append({'case': c, 'impl': r, 'model': m, 'what': 'macro replay model evaluation failed'}); continue
-        if m[0] < 0 or m0[0] != -2:
-            dis.append({'case': c, 'impl': None, 'model': [m, m0], 'what': 'macro nesting depth: the model replays within fuel %d and must not within %d' % (depth, depth - 1)}); continue
+        if m[1] != 0 or m0[1] != 1:
+            dis.append({'case': c, 'impl': None, 'model': [m, m0], 'what': 'macro nesting depth: the model replays to the end within a budget of %d levels and must abandon the chain within %d' % (depth, depth - 1)}); continue
         if r is None or r[0] != 'ok':
             dis.append({'case': c, 'impl': r, 'model': m, 'what': 'nested macro invocation did not return; the model replays %d characters' % m[0]}); continue
         printed = r[1][8] * 80 + r[1][7]
-        if printed > m[0] or m[0] > m[3]:
-            dis.append({'case': c, 'impl': printed, 'model': m, 'what': 'characters printed > macro_chars, or macro_chars > B * geom c fuel (macro_replay_bound)'}); continue
+        if printed > m[0] or m[0] > m[4] or r[1][10] != 0:
+            dis.append({'case': c, 'impl': [printed, r[1][10]], 'model': m, 'what': 'characters printed > macro_chars, or macro_chars > B * geom c fuel (macro_replay_bound), or the invocation was an error value'}); continue
+        if printed > 0: nontriv.add(c)
+    # nests around the limit of the code (MAX_MACRO_NESTING): abandoned exactly when the generator says so (chain longer than the limit / a cycle reachable from the top macro),
+    # the invocation is an error value exactly then, printed <= macro_chars <= bound (macro_replay_total)
+    base = len(hexs) + len(nest) + len(sixels) + len(load_cases)
+    for j, (defs, top, ab) in enumerate(deep):
+        m = model_nest[2 * len(nest) + j]; r = impl_ext[base + j]; c = deep_cases[j]; ext_n += 1
+        if m is None or len(m) < 5:
+            dis.append({'case': c, 'impl': r, 'model': m, 'what': 'macro replay model evaluation failed'}); continue
+        if r is None or r[0] != 'ok':
+            dis.append({'case': c, 'impl': r, 'model': m, 'what': 'macro invocation around the nesting limit did not return; the model replays at most %d characters' % m[0]}); continue
+        printed = r[1][8] * 80 + r[1][7]
+        if m[1] != int(ab) or r[1][10] != int(ab):
+            dis.append({'case': c, 'impl': [printed, r[1][10]], 'model': m, 'what': 'chain abandoned (MacroNestingTooDeep): expected %d, model %d, implementation error values %d' % (int(ab), m[1], r[1][10])}); continue
+        if printed > m[0] or m[0] > m[4]:
+            dis.append({'case': c, 'impl': printed, 'model': m, 'what': 'characters printed > macro_chars, or macro_chars > B * geom c MAX_MACRO_NESTING (macro_replay_total)'}); continue
         if printed > 0: nontriv.add(c)
     # extension (d): the sixel decoder: accept / reject, rows, bytes of the image = rows x longest row <= cap (sixel_image_bound), iterations within the bound
     for j, b_ in enumerate(sixels):
